@@ -447,3 +447,41 @@ def vanish_effects(ctx, s):
     rem = s.calls(fn, names={"pocket_db::Store::remove_event"})
     ctx.floor("C18.vanish.remove-calls", len(rem), 2)
     return rem
+
+
+def one_snapshot(ctx, s, root="pocket_db::Store::find_events"):
+    """a query is answered from one read transaction: acquired once, outside every loop, and used by every
+    index read in the query's closure; nothing below opens another transaction"""
+    fn = ctx.fn(root)
+    an = ctx.E.an(fn)
+    name = root.split("::")[-1]
+    wrappers = {ctx.fn(n).path for n in ("pocket_db::Lmdb::read_txn", "pocket_db::Store::read_txn",
+                                         "pocket_db::Lmdb::write_txn", "pocket_db::Store::write_txn")}
+    rt = s.calls(fn, pred=lambda n, c, b, i: c.endswith("::read_txn"))
+    loops = an.cfg.natural_loops()
+    if len(rt) != 1:
+        s.add("S-TXN", fn, "one-snapshot", name, fn.sp, VIOLATION,
+              "%d read transactions are opened by the query itself (expected exactly one)" % len(rt))
+    else:
+        b, info = rt[0]
+        inloop = any(b in body for body in loops.values())
+        s.add("S-TXN", fn, "one-snapshot", name, info["sp"], PROVED if not inloop else VIOLATION,
+              "the query opens exactly one read transaction, outside every loop" if not inloop else
+              "the read transaction is (re)opened inside a loop: different parts of the answer come from different snapshots", b)
+    scope = ctx.G.reachable([fn.path], within=lambda p: p.startswith("pocket_db::"))
+    ctx.functions.update(scope)
+    bad = []
+    for p in sorted(scope):
+        if p == fn.path or p in wrappers:
+            continue
+        g = ctx.F.fns[p]
+        for b, info in ctx.E.an(g).calls():
+            c = info["callee"] or ""
+            if c.endswith("::read_txn") or c.endswith("::write_txn") or c.endswith("::static_read_txn"):
+                bad.append((g, b, info))
+    for g, b, info in bad:
+        s.add("S-TXN", g, "second-snapshot-in-query", g.nice.split("::")[-1], info["sp"], VIOLATION,
+              "%s, reached from %s, opens its own transaction: part of the answer is read from a later snapshot" % (g.nice.split("::")[-1], name), b)
+    if not bad:
+        s.add("S-TXN", fn, "second-snapshot-in-query", "none", fn.sp, PROVED,
+              "none of the %d functions reachable from the query opens a transaction" % (len(scope) - 1))
